@@ -23,6 +23,7 @@ U17 = ("u17_signature", {})
 U18 = ("u18_values", {})
 U19 = ("u19_parse_trace", {})
 U20 = ("u20_roundtrip", {})
+U21 = ("u21_autotraits", {})
 U12M = ("u12_text_trace", {"which": "mapper"})
 U12C = ("u12_text_trace", {"which": "cache"})
 U3 = ("u3_interpretation", {})
@@ -251,6 +252,21 @@ PROPS = {
         "not_decided": ["parse_stacktrace(to_string(t)) == t for whole traces (needs lines_of of a concatenation; the two halves are proved separately)", "print(parse(print(x))) == print(x) follows from parse(print(x)) == x and is not stated separately"],
         "design_ref": "DESIGN.md 5/C17",
     },
+    "C20": {
+        "title": "Mapper and cache are shareable across threads and answer as if queried alone",
+        "units": [U21],
+        "kani": [],
+        "technique": "one `T: Send + Sync` obligation per public handle / result type, stated on the real type definitions extracted from /repo and discharged by rustc's trait solver (the front end of the verifier); the run-time half is argued from the functional contracts of the query functions, not proved",
+        "level_text": "TYPE-LEVEL HALF ONLY. Proved (by the trait solver, for the types as written in /repo, every field included): ProguardMapper, ProguardCache, ProguardMapping, both RemappedFrameIter types, StackFrame, "
+                      "Throwable, StackTrace, DeobfuscatedSignature, MappingSummary, ProguardRecordIter, ProguardRecord, ParseError and CacheError are Send + Sync. A field with interior mutability that is not thread-safe (Cell, RefCell, Rc, raw pointer) "
+                      "fails the obligation of every type that contains it. NOT proved: the statement about schedules (concurrent queries return what they return alone). It is argued, not decided: the handle types are Sync, every query takes `&self`, "
+                      "and every query under contract returns a spec function of the receiver's value and its arguments (units u1 / u2 / u10 / u12 / u17), so in safe Rust no interleaving can change an answer; no contract here quantifies over schedules.",
+        "assumed": ["`impl` items are not extracted by this unit: an `unsafe impl Send / Sync` for one of the types would not be noticed",
+                    "derive attributes are dropped from the extracted definitions (they do not influence auto traits)",
+                    "thread-safe interior mutability (Mutex, atomics) keeps a type Sync; whether a memo table behind a Mutex changes answers is a functional question, covered only as far as the query functions are under contract"],
+        "not_decided": ["for every set of queries issued concurrently from many threads, each query returns exactly what it returns when issued alone (a statement about schedules; outside both installed tools)"],
+        "design_ref": "DESIGN.md 5/C20",
+    },
     "C19": {
         "title": "File-level metadata answers equal a fold over the complete record stream",
         "units": [U7, U5],
@@ -290,7 +306,6 @@ PROPS = {
 NOT_APPLICABLE = {
     "C14": "quantifies over processes, hash seeds and threads (a two-run property); a per-call contract can only say that the output is the value of spec functions of its inputs: within one run the collected classes are the abstract fold over the record stream (u14), the tail emits canonical(classes in BTreeMap key order, string bytes) (u8) and the HashSet is used for membership only, but the string-table offsets enter through a ghost table sequence whose interning order is deliberately left open (so that harmless reorderings verify), and watto::StringTable (insert / into_bytes) has no contract that would make the string section a function of the records. The second clause of the statement (`its length equals the length implied by its own header`) IS proved, as obligation file_length_equals_header_implied_length under C09 / C11 (u8), and u20 shows the reader accepts every emitted file",
     "C18": "two lines behind lazy_static! and the optional uuid dependency (SHA-1 inside the dependency); feature is off in the pinned build; a contract would restate the call",
-    "C20": "schedules are outside both tools (Kani has no threads; Verus would need its own permission types on code that has no synchronisation); Send+Sync is a type-checker fact",
 }
 
 # ---- texts revised after the late units (u13/u14 whole builders, u20 round trip, flag-independence lemma) ----
